@@ -186,7 +186,7 @@ Definition step (pol : policy) (s : cstore) (o : op) : cstore * bool :=
   | OpServeMsgChase q cd out =>
       let ids :=
         match serve_msg_exact KB bytes_eqb hid s q cd None with
-        | Some e => e_id e :: map e_id (msg_chase KB bytes_eqb hid s 10 (q_type q) cd e)
+        | Some e => e_id e :: map e_id (msg_chase KB bytes_eqb hid s 10 (q_type q) (q_class q) cd e)
         | None => []
         end in
       (s, bytes_eqb ids out)
